@@ -152,21 +152,36 @@ theorem never_redirected (s s' : State) (hu : IdsUnique s) (hs : Sub s s') (i : 
   obtain ⟨a, ha, e1, _, _⟩ := hs h a' ha'
   exact (resolve_exact s hu i h).2 ⟨a, ha, by rw [← e1]; exact hid'⟩
 
+theorem tempSlot_live {α} (letter : Char) (slots : List (Option α)) (id : String) (h : Nat)
+    (ht : tempSlot letter slots id = some h) : (getLive slots h).isSome := by
+  unfold tempSlot at ht
+  split at ht
+  · split at ht
+    · cases ht; assumption
+    · cases ht
+  · cases ht
+
 /-- **temporary identifiers resolve only to a live item of the right kind**, and every successful
 lookup - public or temporary - yields a live annotation -/
 theorem lookup_live (s : State) (id : String) (h : Nat) (hl : s.lookupAnn id = some h) :
     (getLive s.anns h).isSome := by
   unfold State.lookupAnn at hl
   split at hl
-  · split at hl
-    · cases hl; assumption
-    · cases hl
-  · exact resolveAnn_live s _ h hl
+  · rename_i h' hr; cases hl; exact resolveAnn_live s _ _ hr
+  · exact tempSlot_live 'A' s.anns id h hl
 
-theorem temp_exact (s : State) (id : String) (n : Nat) (ht : tempId 'A' id = some n) (h : Nat) :
+/-- **an item is found by the public identifier it carries, whatever the shape of that identifier** (also when it
+looks like a temporary identifier) -/
+theorem public_id_wins (s : State) (id : String) (h : Nat) (hr : s.resolveAnn (.id id) = some h) :
+    s.lookupAnn id = some h := by
+  unfold State.lookupAnn; rw [hr]
+
+/-- a string that no live item carries as its identifier resolves exactly as a temporary identifier: to the live
+slot it names, and to nothing otherwise -/
+theorem temp_exact (s : State) (id : String) (n : Nat) (hn : s.resolveAnn (.id id) = none) (ht : tempId 'A' id = some n) (h : Nat) :
     s.lookupAnn id = some h ↔ (h = n ∧ (getLive s.anns n).isSome) := by
-  unfold State.lookupAnn
-  rw [ht]
+  unfold State.lookupAnn tempSlot
+  rw [hn, ht]
   simp only []
   split
   · rename_i hl; constructor
@@ -175,6 +190,12 @@ theorem temp_exact (s : State) (id : String) (n : Nat) (ht : tempId 'A' id = som
   · rename_i hl; constructor
     · intro h1; cases h1
     · rintro ⟨_, h2⟩; exact absurd h2 hl
+
+/-- a string that is neither carried by a live item nor a temporary identifier resolves to nothing -/
+theorem lookup_none (s : State) (id : String) (hn : s.resolveAnn (.id id) = none) (ht : tempId 'A' id = none) :
+    s.lookupAnn id = none := by
+  unfold State.lookupAnn tempSlot
+  rw [hn, ht]
 
 /-- a temporary identifier of another kind's letter is not a temporary identifier here -/
 theorem temp_wrong_letter (l : Char) (rest : List Char) (hl : l ≠ 'A') :
